@@ -164,6 +164,15 @@ pub fn generate_long_run<M: Machine>(verif_seed: u64, run: u64, max_pow10: u32) 
         family = *r.pick(&[FAM_TINY, FAM_HUGE, FAM_VANISHING, FAM_VANISHING, FAM_NEAR_UNDERFLOW, FAM_NEAR_UNDERFLOW]);
     }
     let scale_exp = if family == FAM_TINY || family == FAM_HUGE || family == FAM_NEAR_UNDERFLOW { 0 } else { r.range(-10, 10) as i32 };
+    let scale_exp = if M::FAMILY == Family::Mean && (family < FAM_TINY || family == FAM_ALTERNATING) && r.chance(0.1) {
+        // squares underflow, records are normal numbers
+        match flt {
+            Flt::F32 => -(r.range(70, 100) as i32),
+            _ => -(r.range(520, 800) as i32),
+        }
+    } else {
+        scale_exp
+    };
     let tapes = [TapeSpec::Gen { family, seed: r.next_u64(), len: n, flt, positive: false, scale_exp }, TapeSpec::Explicit(vec![])];
     // number of chunks: 1, few, many, very many (capped so that the event list stays small)
     let chunks = (*r.pick(&[1u32, 7, 1000, 30_000, 100_000])).min(n);
